@@ -1,15 +1,1320 @@
 package main
 
+// Counterexample replay.
+//
+// When an obligation of a function fails, govc asks the solver for a model of a quantifier-free weakening of the failing
+// query (the triggered axioms are dropped, sequences are kept short), reads the values of the function's parameters out of
+// it, runs the REAL function of the current tree on those values (an in-package test injected with `go test -overlay`,
+// nothing is written to the repository) and then lets the solver evaluate the function's own `ensures` clauses on the
+// observed (input, output) pair with the full axiomatic prelude. Only if (a) the `requires` clauses provably hold for the
+// input, (b) the pinned values are consistent with the assumed background facts and (c) some `ensures` clause is provably
+// false for the observed pair, is the input reported as a failing input. A model that does not replay is discarded: the
+// violation is then still reported, with `no-failing-input-found`.
+//
+// Scope: package-level functions and methods on value receivers whose parameters and results are booleans, integers,
+// floats, strings, slices of those, or structs of those, and whose ensures clauses mention nothing but parameters and
+// results (no heap, no ghost state). Everything else has no replay.
+
 import (
+	"context"
+	"encoding/json"
 	"fmt"
+	"go/types"
+	"math"
+	"math/big"
 	"os"
+	"os/exec"
+	"path/filepath"
+	"sort"
+	"strconv"
+	"strings"
+	"time"
+
+	"golang.org/x/tools/go/ssa"
 )
 
-// tryCounterexample: attempt to turn a failed obligation into a concrete failing input replayed on the real code.
-func tryCounterexample(verif, prop string, r *oblResult, rep map[string]interface{}) bool {
+const cexMaxSeq = 3
+
+// Cex: a failing input confirmed on the real code.
+type Cex struct {
+	Func      string            `json:"function"`
+	Inputs    map[string]string `json:"inputs"`    // parameter -> value
+	GoInputs  map[string]string `json:"go_inputs"` // parameter -> Go expression used by the replay test
+	Observed  []string          `json:"observed"` // results of the real function
+	Violated  []string          `json:"violated_ensures"`
+	TestFile  string            `json:"test_file"`
+	PkgDir    string            `json:"package_dir"`
+	ModDir    string            `json:"module_dir"`
+	TestCmd   string            `json:"test_cmd"`
+	FromQuery string            `json:"model_of"`
+	Log       []string          `json:"log,omitempty"`
+}
+
+// ---------------------------------------------------------------------------------------------------------------
+// s-expressions
+
+type sx struct {
+	atom string
+	list []*sx
+	isL  bool
+}
+
+func parseSx(s string) []*sx {
+	var out []*sx
+	i := 0
+	var parse func() *sx
+	skip := func() {
+		for i < len(s) {
+			switch {
+			case s[i] == ' ' || s[i] == '\n' || s[i] == '\t' || s[i] == '\r':
+				i++
+			case s[i] == ';':
+				for i < len(s) && s[i] != '\n' {
+					i++
+				}
+			default:
+				return
+			}
+		}
+	}
+	parse = func() *sx {
+		skip()
+		if i >= len(s) {
+			return nil
+		}
+		switch s[i] {
+		case '(':
+			i++
+			n := &sx{isL: true}
+			for {
+				skip()
+				if i >= len(s) {
+					return n
+				}
+				if s[i] == ')' {
+					i++
+					return n
+				}
+				c := parse()
+				if c == nil {
+					return n
+				}
+				n.list = append(n.list, c)
+			}
+		case ')':
+			i++
+			return nil
+		case '"':
+			j := i + 1
+			for j < len(s) {
+				if s[j] == '"' {
+					if j+1 < len(s) && s[j+1] == '"' {
+						j += 2
+						continue
+					}
+					break
+				}
+				j++
+			}
+			a := s[i : j+1]
+			i = j + 1
+			return &sx{atom: a}
+		case '|':
+			j := i + 1
+			for j < len(s) && s[j] != '|' {
+				j++
+			}
+			a := s[i : j+1]
+			i = j + 1
+			return &sx{atom: a}
+		}
+		j := i
+		for j < len(s) && !strings.ContainsRune(" \n\t\r()", rune(s[j])) {
+			j++
+		}
+		a := s[i:j]
+		i = j
+		return &sx{atom: a}
+	}
+	for {
+		skip()
+		if i >= len(s) {
+			break
+		}
+		n := parse()
+		if n != nil {
+			out = append(out, n)
+		}
+	}
+	return out
+}
+
+func (n *sx) String() string {
+	if !n.isL {
+		return n.atom
+	}
+	var ps []string
+	for _, c := range n.list {
+		ps = append(ps, c.String())
+	}
+	return "(" + strings.Join(ps, " ") + ")"
+}
+
+// ratOf: the rational denoted by a numeric model value (Int or Real literal, unary minus, division).
+func ratOf(n *sx) (*big.Rat, bool) {
+	if !n.isL {
+		r := new(big.Rat)
+		if _, ok := r.SetString(strings.TrimSuffix(n.atom, "?")); ok {
+			return r, true
+		}
+		return nil, false
+	}
+	if len(n.list) == 2 && n.list[0].atom == "-" {
+		r, ok := ratOf(n.list[1])
+		if !ok {
+			return nil, false
+		}
+		return r.Neg(r), true
+	}
+	if len(n.list) == 3 && n.list[0].atom == "/" {
+		a, ok1 := ratOf(n.list[1])
+		b, ok2 := ratOf(n.list[2])
+		if !ok1 || !ok2 || b.Sign() == 0 {
+			return nil, false
+		}
+		return a.Quo(a, b), true
+	}
+	return nil, false
+}
+
+// smtStringValue decodes an SMT-LIB string literal ("" is a quote, \u{X} / \uXXXX escapes) to bytes (code points < 256).
+func smtStringValue(a string) (string, bool) {
+	if len(a) < 2 || a[0] != '"' || a[len(a)-1] != '"' {
+		return "", false
+	}
+	a = strings.ReplaceAll(a[1:len(a)-1], `""`, `"`)
+	var b []byte
+	for i := 0; i < len(a); i++ {
+		if a[i] == '\\' && i+1 < len(a) && a[i+1] == 'u' {
+			if i+2 < len(a) && a[i+2] == '{' {
+				j := strings.IndexByte(a[i:], '}')
+				if j > 0 {
+					v, err := strconv.ParseUint(a[i+3:i+j], 16, 32)
+					if err != nil || v > 255 {
+						return "", false
+					}
+					b = append(b, byte(v))
+					i += j
+					continue
+				}
+			} else if i+5 < len(a) {
+				v, err := strconv.ParseUint(a[i+2:i+6], 16, 32)
+				if err == nil {
+					if v > 255 {
+						return "", false
+					}
+					b = append(b, byte(v))
+					i += 5
+					continue
+				}
+			}
+		}
+		b = append(b, a[i])
+	}
+	return string(b), true
+}
+
+// smtStringLit: the SMT-LIB literal of a byte string.
+func smtStringLit(s string) string {
+	var b strings.Builder
+	b.WriteByte('"')
+	for i := 0; i < len(s); i++ {
+		c := s[i]
+		switch {
+		case c == '"':
+			b.WriteString(`""`)
+		case c == '\\' || c < 0x20 || c > 0x7e:
+			fmt.Fprintf(&b, `\u{%x}`, c)
+		default:
+			b.WriteByte(c)
+		}
+	}
+	b.WriteByte('"')
+	return b.String()
+}
+
+// ---------------------------------------------------------------------------------------------------------------
+// supported types
+
+func cexSupported(T types.Type, home *types.Package, depth int) bool {
+	if depth > 3 {
+		return false
+	}
+	switch u := T.Underlying().(type) {
+	case *types.Basic:
+		if u.Kind() == types.Uintptr || u.Kind() == types.UnsafePointer {
+			return false
+		}
+		return u.Info()&(types.IsBoolean|types.IsInteger|types.IsFloat|types.IsString) != 0 && u.Info()&types.IsUntyped == 0
+	case *types.Slice:
+		if _, isStruct := u.Elem().Underlying().(*types.Struct); isStruct && depth > 0 {
+			return false
+		}
+		if depth == 0 && cexNilOnly(T, home) {
+			return true // replayed with nil only
+		}
+		return cexSupported(u.Elem(), home, depth+1)
+	case *types.Struct:
+		for i := 0; i < u.NumFields(); i++ {
+			f := u.Field(i)
+			if !f.Exported() && f.Pkg() != home {
+				return false
+			}
+			if !cexSupported(f.Type(), home, depth+1) {
+				return false
+			}
+		}
+		return true
+	}
 	return false
 }
 
+// cexNilOnly: a slice whose elements cannot be built by the replay (functions, interfaces, pointers): only nil is tried.
+func cexNilOnly(T types.Type, home *types.Package) bool {
+	u, ok := T.Underlying().(*types.Slice)
+	return ok && !cexSupported(u.Elem(), home, 1)
+}
+
+// cexEligible reports whether fn can be replayed, and why not otherwise.
+func cexEligible(fn *ssa.Function) (bool, string) {
+	if fn == nil || fn.Pkg == nil {
+		return false, "no function"
+	}
+	if fn.Parent() != nil {
+		return false, "closure"
+	}
+	if fn.Signature.TypeParams() != nil || fn.Signature.RecvTypeParams() != nil {
+		return false, "generic"
+	}
+	home := fn.Pkg.Pkg
+	for _, p := range fn.Params {
+		if !cexSupported(p.Type(), home, 0) {
+			return false, fmt.Sprintf("parameter %s has type %s", p.Name(), p.Type())
+		}
+	}
+	res := fn.Signature.Results()
+	if res.Len() == 0 {
+		return false, "no results"
+	}
+	for i := 0; i < res.Len(); i++ {
+		if cexNilOnly(res.At(i).Type(), home) || !cexSupported(res.At(i).Type(), home, 0) {
+			return false, fmt.Sprintf("result %d has type %s", i, res.At(i).Type())
+		}
+	}
+	return true, ""
+}
+
+// ---------------------------------------------------------------------------------------------------------------
+// values
+
+// cexVal: a concrete value of a supported type.
+type cexVal struct {
+	T      types.Type
+	b      bool
+	n      *big.Int
+	f      float64
+	s      string
+	elems  []*cexVal // slice
+	fields []*cexVal // struct
+	isNil  bool
+}
+
+// leafTerms lists the SMT terms whose model values determine a value of type T denoted by term t.
+func (fc *FnCtx) leafTerms(t string, T types.Type, out *[]string) {
+	switch u := T.Underlying().(type) {
+	case *types.Basic:
+		*out = append(*out, t)
+	case *types.Slice:
+		s := fc.P.SortOf(T)
+		*out = append(*out, fmt.Sprintf("(len_%s %s)", s, t))
+		if cexNilOnly(T, fc.top.Pkg.Pkg) {
+			return
+		}
+		for k := 0; k < cexMaxSeq; k++ {
+			fc.leafTerms(fmt.Sprintf("(at_%s %s %d)", s, t, k), u.Elem(), out)
+		}
+	case *types.Struct:
+		s := fc.P.SortOf(T)
+		for i := 0; i < u.NumFields(); i++ {
+			fc.leafTerms(fmt.Sprintf("(%s_f%d %s)", s, i, t), u.Field(i).Type(), out)
+		}
+	}
+}
+
+// valueFrom builds the value of type T denoted by term t from the model values of its leaf terms.
+func (fc *FnCtx) valueFrom(t string, T types.Type, model map[string]*sx) (*cexVal, error) {
+	switch u := T.Underlying().(type) {
+	case *types.Basic:
+		mv := model[t]
+		if mv == nil {
+			return nil, fmt.Errorf("no model value for %s", t)
+		}
+		v := &cexVal{T: T}
+		switch {
+		case u.Info()&types.IsBoolean != 0:
+			v.b = mv.atom == "true"
+			if mv.atom != "true" && mv.atom != "false" {
+				return nil, fmt.Errorf("bad bool %s", mv)
+			}
+		case u.Info()&types.IsInteger != 0:
+			r, ok := ratOf(mv)
+			if !ok || !r.IsInt() {
+				return nil, fmt.Errorf("bad integer %s", mv)
+			}
+			v.n = new(big.Int).Set(r.Num())
+			if !intFits(v.n, u) {
+				return nil, fmt.Errorf("integer %s does not fit %s", v.n, u)
+			}
+		case u.Info()&types.IsFloat != 0:
+			r, ok := ratOf(mv)
+			if !ok {
+				return nil, fmt.Errorf("bad real %s", mv)
+			}
+			v.f, _ = r.Float64()
+			if u.Kind() == types.Float32 {
+				v.f = float64(float32(v.f))
+			}
+			if math.IsInf(v.f, 0) || math.IsNaN(v.f) {
+				return nil, fmt.Errorf("real %s out of range", mv)
+			}
+		case u.Info()&types.IsString != 0:
+			s, ok := smtStringValue(mv.atom)
+			if !ok {
+				return nil, fmt.Errorf("bad string %s", mv)
+			}
+			v.s = s
+		}
+		return v, nil
+	case *types.Slice:
+		s := fc.P.SortOf(T)
+		lv := model[fmt.Sprintf("(len_%s %s)", s, t)]
+		if lv == nil {
+			return nil, fmt.Errorf("no length for %s", t)
+		}
+		r, ok := ratOf(lv)
+		if !ok || !r.IsInt() || r.Sign() < 0 || r.Num().Int64() > cexMaxSeq {
+			return nil, fmt.Errorf("length %s of %s out of the replay range", lv, t)
+		}
+		v := &cexVal{T: T, isNil: r.Sign() == 0}
+		if cexNilOnly(T, fc.top.Pkg.Pkg) {
+			if r.Sign() != 0 {
+				return nil, fmt.Errorf("%s can only be replayed as nil", t)
+			}
+			return v, nil
+		}
+		for k := 0; k < int(r.Num().Int64()); k++ {
+			e, err := fc.valueFrom(fmt.Sprintf("(at_%s %s %d)", s, t, k), u.Elem(), model)
+			if err != nil {
+				return nil, err
+			}
+			v.elems = append(v.elems, e)
+		}
+		return v, nil
+	case *types.Struct:
+		s := fc.P.SortOf(T)
+		v := &cexVal{T: T}
+		for i := 0; i < u.NumFields(); i++ {
+			f, err := fc.valueFrom(fmt.Sprintf("(%s_f%d %s)", s, i, t), u.Field(i).Type(), model)
+			if err != nil {
+				return nil, err
+			}
+			v.fields = append(v.fields, f)
+		}
+		return v, nil
+	}
+	return nil, fmt.Errorf("unsupported type %s", T)
+}
+
+func intFits(n *big.Int, b *types.Basic) bool {
+	bits, signed := 64, true
+	switch b.Kind() {
+	case types.Int8:
+		bits = 8
+	case types.Int16:
+		bits = 16
+	case types.Int32:
+		bits = 32
+	case types.Uint8:
+		bits, signed = 8, false
+	case types.Uint16:
+		bits, signed = 16, false
+	case types.Uint32:
+		bits, signed = 32, false
+	case types.Uint, types.Uint64:
+		bits, signed = 64, false
+	}
+	lo, hi := new(big.Int), new(big.Int)
+	if signed {
+		lo.Neg(new(big.Int).Lsh(big.NewInt(1), uint(bits-1)))
+		hi.Sub(new(big.Int).Lsh(big.NewInt(1), uint(bits-1)), big.NewInt(1))
+	} else {
+		hi.Sub(new(big.Int).Lsh(big.NewInt(1), uint(bits)), big.NewInt(1))
+	}
+	return n.Cmp(lo) >= 0 && n.Cmp(hi) <= 0
+}
+
+// goExpr: the Go expression of a value (types qualified by q).
+func (v *cexVal) goExpr(q types.Qualifier) string {
+	ts := types.TypeString(v.T, q)
+	switch u := v.T.Underlying().(type) {
+	case *types.Basic:
+		switch {
+		case u.Info()&types.IsBoolean != 0:
+			return fmt.Sprintf("%s(%v)", ts, v.b)
+		case u.Info()&types.IsInteger != 0:
+			return fmt.Sprintf("%s(%s)", ts, v.n)
+		case u.Info()&types.IsFloat != 0:
+			return fmt.Sprintf("%s(math.Float64frombits(0x%x))", ts, math.Float64bits(v.f))
+		default:
+			return fmt.Sprintf("%s(%q)", ts, v.s)
+		}
+	case *types.Slice:
+		if v.isNil {
+			return fmt.Sprintf("%s(nil)", ts)
+		}
+		var es []string
+		for _, e := range v.elems {
+			es = append(es, e.goExpr(q))
+		}
+		return fmt.Sprintf("%s{%s}", ts, strings.Join(es, ", "))
+	case *types.Struct:
+		var fs []string
+		for i, f := range v.fields {
+			fs = append(fs, fmt.Sprintf("%s: %s", u.Field(i).Name(), f.goExpr(q)))
+		}
+		return fmt.Sprintf("%s{%s}", ts, strings.Join(fs, ", "))
+	}
+	return "nil"
+}
+
+// show: a short human-readable rendering.
+func (v *cexVal) show() string {
+	switch u := v.T.Underlying().(type) {
+	case *types.Basic:
+		switch {
+		case u.Info()&types.IsBoolean != 0:
+			return fmt.Sprint(v.b)
+		case u.Info()&types.IsInteger != 0:
+			return v.n.String()
+		case u.Info()&types.IsFloat != 0:
+			return strconv.FormatFloat(v.f, 'g', -1, 64)
+		default:
+			return strconv.Quote(v.s)
+		}
+	case *types.Slice:
+		if v.isNil {
+			return "nil"
+		}
+		var es []string
+		for _, e := range v.elems {
+			es = append(es, e.show())
+		}
+		return "[" + strings.Join(es, " ") + "]"
+	case *types.Struct:
+		var fs []string
+		for i, f := range v.fields {
+			fs = append(fs, u.Field(i).Name()+":"+f.show())
+		}
+		return "{" + strings.Join(fs, " ") + "}"
+	}
+	return "?"
+}
+
+// smtTerm: the ground SMT term of a value under the axiomatic (non-small) prelude.
+func (fc *FnCtx) smtTerm(v *cexVal) string {
+	switch u := v.T.Underlying().(type) {
+	case *types.Basic:
+		switch {
+		case u.Info()&types.IsBoolean != 0:
+			return fmt.Sprint(v.b)
+		case u.Info()&types.IsInteger != 0:
+			if v.n.Sign() < 0 {
+				return fmt.Sprintf("(- %s)", new(big.Int).Neg(v.n))
+			}
+			return v.n.String()
+		case u.Info()&types.IsFloat != 0:
+			r := new(big.Rat)
+			r.SetFloat64(v.f)
+			num, den := r.Num(), r.Denom()
+			s := fmt.Sprintf("(/ %s.0 %s.0)", new(big.Int).Abs(num), den)
+			if num.Sign() < 0 {
+				s = "(- " + s + ")"
+			}
+			return s
+		default:
+			return smtStringLit(v.s)
+		}
+	case *types.Slice:
+		s := fc.P.SortOf(v.T)
+		t := "emptynn_" + s
+		if v.isNil {
+			t = "empty_" + s
+		}
+		for _, e := range v.elems {
+			t = fmt.Sprintf("(build_%s %s %s)", s, t, fc.smtTerm(e))
+		}
+		return t
+	case *types.Struct:
+		s := fc.P.SortOf(v.T)
+		if len(v.fields) == 0 {
+			return "mk_" + s
+		}
+		var fs []string
+		for _, f := range v.fields {
+			fs = append(fs, fc.smtTerm(f))
+		}
+		return fmt.Sprintf("(mk_%s %s)", s, strings.Join(fs, " "))
+	}
+	return "0"
+}
+
+// eqTerm: the SMT formula "term t denotes value v" over the leaf terms of t.
+func (fc *FnCtx) eqTerm(t string, v *cexVal) string {
+	switch u := v.T.Underlying().(type) {
+	case *types.Basic:
+		return fmt.Sprintf("(= %s %s)", t, fc.smtTerm(v))
+	case *types.Slice:
+		s := fc.P.SortOf(v.T)
+		ps := []string{fmt.Sprintf("(= (len_%s %s) %d)", s, t, len(v.elems))}
+		for k, e := range v.elems {
+			ps = append(ps, fc.eqTerm(fmt.Sprintf("(at_%s %s %d)", s, t, k), e))
+		}
+		return "(and " + strings.Join(ps, " ") + ")"
+	case *types.Struct:
+		s := fc.P.SortOf(v.T)
+		ps := []string{"true"}
+		for i := 0; i < u.NumFields(); i++ {
+			ps = append(ps, fc.eqTerm(fmt.Sprintf("(%s_f%d %s)", s, i, t), v.fields[i]))
+		}
+		return "(and " + strings.Join(ps, " ") + ")"
+	}
+	return "true"
+}
+
+// fromJSON rebuilds a value of type T from the dump printed by the replay test.
+func cexFromJSON(T types.Type, j interface{}) (*cexVal, error) {
+	v := &cexVal{T: T}
+	switch u := T.Underlying().(type) {
+	case *types.Basic:
+		m, ok := j.(map[string]interface{})
+		if !ok {
+			return nil, fmt.Errorf("bad dump %v", j)
+		}
+		switch {
+		case u.Info()&types.IsBoolean != 0:
+			v.b, _ = m["b"].(bool)
+		case u.Info()&types.IsInteger != 0:
+			s, _ := m["i"].(string)
+			n, ok := new(big.Int).SetString(s, 10)
+			if !ok {
+				return nil, fmt.Errorf("bad int dump %v", j)
+			}
+			v.n = n
+		case u.Info()&types.IsFloat != 0:
+			s, _ := m["f"].(string)
+			bits, err := strconv.ParseUint(s, 16, 64)
+			if err != nil {
+				return nil, err
+			}
+			v.f = math.Float64frombits(bits)
+			if math.IsInf(v.f, 0) || math.IsNaN(v.f) {
+				return nil, fmt.Errorf("non-finite float result")
+			}
+		default:
+			s, _ := m["s"].(string)
+			raw, err := strconv.Unquote(s)
+			if err != nil {
+				return nil, err
+			}
+			v.s = raw
+		}
+		return v, nil
+	case *types.Slice:
+		if j == nil {
+			v.isNil = true
+			return v, nil
+		}
+		l, ok := j.([]interface{})
+		if !ok {
+			return nil, fmt.Errorf("bad slice dump %v", j)
+		}
+		if len(l) > 8 {
+			return nil, fmt.Errorf("result slice of %d elements is too long to pin", len(l))
+		}
+		for _, e := range l {
+			ev, err := cexFromJSON(u.Elem(), e)
+			if err != nil {
+				return nil, err
+			}
+			v.elems = append(v.elems, ev)
+		}
+		return v, nil
+	case *types.Struct:
+		l, ok := j.([]interface{})
+		if !ok || len(l) != u.NumFields() {
+			return nil, fmt.Errorf("bad struct dump %v", j)
+		}
+		for i, e := range l {
+			fv, err := cexFromJSON(u.Field(i).Type(), e)
+			if err != nil {
+				return nil, err
+			}
+			v.fields = append(v.fields, fv)
+		}
+		return v, nil
+	}
+	return nil, fmt.Errorf("unsupported")
+}
+
+// ---------------------------------------------------------------------------------------------------------------
+// the search
+
+// stripQuantified drops every top-level command that contains a quantifier (a weakening: fewer hypotheses), except the
+// last assertion (the negated goal), which is kept whenever it is quantifier-free.
+func stripQuantified(script string) string {
+	var out []string
+	for _, l := range strings.Split(script, "\n") {
+		if strings.Contains(l, "(forall ") || strings.Contains(l, "(exists ") {
+			continue
+		}
+		if strings.HasPrefix(l, "(check-sat") {
+			continue
+		}
+		out = append(out, l)
+	}
+	return strings.Join(out, "\n") + "\n"
+}
+
+// raceSolvers runs the script on the three solvers at once and returns the first answer of the wanted class
+// ("sat" with its output, or "unsat"); otherwise the first other answer.
+func raceSolvers(script, file, want string, secs int) (class, out string) {
+	os.WriteFile(file, []byte(script), 0o644)
+	type ans struct{ class, out string }
+	ctx, cancel := context.WithCancel(context.Background())
+	defer cancel()
+	ch := make(chan ans, len(solvers))
+	for _, s := range solvers {
+		s := s
+		go func() {
+			c, o, _ := runSolverCtx(ctx, s, file, secs)
+			ch <- ans{c, o}
+		}()
+	}
+	var other *ans
+	for range solvers {
+		a := <-ch
+		if a.class == want {
+			return a.class, a.out
+		}
+		if other == nil || (other.class != "sat" && other.class != "unsat" && (a.class == "sat" || a.class == "unsat")) {
+			b := a
+			other = &b
+		}
+	}
+	return other.class, other.out
+}
+
+// modelValues runs script + get-value(terms) and returns term -> value (nil if no solver answers sat).
+func modelValues(script string, terms []string, file string) map[string]*sx {
+	full := script + "(check-sat)\n(get-value (" + strings.Join(terms, " ") + "))\n"
+	class, out := raceSolvers(full, file, "sat", 10)
+	if class != "sat" {
+		return nil
+	}
+	i := strings.Index(out, "sat")
+	rest := out[i+3:]
+	xs := parseSx(rest)
+	if len(xs) == 0 || !xs[0].isL {
+		return nil
+	}
+	m := map[string]*sx{}
+	for i, pair := range xs[0].list {
+		if pair.isL && len(pair.list) == 2 && i < len(terms) {
+			m[terms[i]] = pair.list[1]
+		}
+	}
+	return m
+}
+
+type cexClause struct{ label, term string }
+
+type cexParam struct {
+	name string
+	term string
+	T    types.Type
+}
+
+// searchCex looks for an input on which the real function violates one of its own ensures clauses.
+// fc is the (normal-prelude) verification context of the function; failing are its failed obligations.
+func (e *Engine) searchCex(fc *FnCtx, failing []*Verdict, work string, logOut *[]string) *Cex {
+	fn := fc.top
+	ctr := fc.contract
+	if ok, _ := cexEligible(fn); !ok || ctr == nil {
+		return nil
+	}
+	fr := fc.topFr
+	var logs []string
+	logf := func(f string, a ...interface{}) {
+		logs = append(logs, fmt.Sprintf(f, a...))
+		*logOut = logs
+	}
+	if fr == nil {
+		logf("no frame of the function among the failed obligations")
+		return nil
+	}
+	var params []cexParam
+	var leaves []string
+	for _, p := range fn.Params {
+		t := fr.vals[p]
+		params = append(params, cexParam{p.Name(), t, p.Type()})
+		fc.leafTerms(t, p.Type(), &leaves)
+	}
+	// the ensures clauses, over fresh result constants, in the entry state (clauses that mention anything else are skipped)
+	res := fn.Signature.Results()
+	var resConsts []string
+	env := fr.baseEnv(fc.entry)
+	env.lookup = func(name string, s *State) (TV, bool) { return fr.paramLookup(name, s) }
+	for i := 0; i < res.Len(); i++ {
+		c := fc.declare(fmt.Sprintf("cex_res%d", i), fc.P.SortOf(res.At(i).Type()))
+		resConsts = append(resConsts, c)
+		tv := TV{c, fc.P.SortOf(res.At(i).Type()), res.At(i).Type()}
+		env.names[fmt.Sprintf("result%d", i)] = tv
+		if i == 0 {
+			env.names["result"] = tv
+		}
+		if n := res.At(i).Name(); n != "" && n != "_" {
+			env.names[n] = tv
+		}
+	}
+	allowed := map[string]bool{}
+	for _, p := range params {
+		allowed[p.term] = true
+	}
+	for _, c := range resConsts {
+		allowed[c] = true
+	}
+	var ens []cexClause
+	nErr := len(fc.errs)
+	for _, c := range ctr.Ensures {
+		nd := len(fc.decls)
+		var term string
+		func() {
+			defer func() {
+				if r := recover(); r != nil {
+					term = ""
+				}
+			}()
+			term = env.tr(c.E).T
+		}()
+		if len(fc.errs) > nErr {
+			fc.errs = fc.errs[:nErr]
+			continue
+		}
+		if term == "" || len(fc.decls) != nd && mentionsNew(term, fc.decls[nd:]) {
+			logf("ensures %s: not evaluable on inputs and results alone", c.Label)
+			continue
+		}
+		if !onlyAllowedConsts(term, fc, allowed) {
+			logf("ensures %s: mentions state other than parameters and results", c.Label)
+			continue
+		}
+		ens = append(ens, cexClause{c.Label, term})
+	}
+	if len(ens) == 0 {
+		logf("no ensures clause can be evaluated on inputs and results alone")
+		return nil
+	}
+	// the requires clauses as goals (not skolemised): they have to be proved for the candidate input
+	var reqs []string
+	envPre := fr.baseEnv(fc.entry)
+	envPre.old = nil
+	envPre.lookup = func(name string, s *State) (TV, bool) { return fr.paramLookup(name, s) }
+	for _, c := range ctr.Requires {
+		var term string
+		func() {
+			defer func() {
+				if r := recover(); r != nil {
+					term = "false"
+				}
+			}()
+			term = envPre.tr(c.E).T
+		}()
+		reqs = append(reqs, term)
+	}
+	if len(fc.errs) > nErr {
+		fc.errs = fc.errs[:nErr]
+	}
+	// background for evaluation: prelude, declarations, axioms and every pre-state fact except the requires clauses
+	var bg strings.Builder
+	axioms := fc.axiomFacts(nil)
+	bg.WriteString("(set-option :produce-models true)\n(set-logic ALL)\n")
+	bg.WriteString(fc.P.String())
+	for _, d := range fc.decls {
+		bg.WriteString(d + "\n")
+	}
+	for _, a := range axioms {
+		bg.WriteString(a + "\n")
+	}
+	for i, f := range fc.facts {
+		if i >= fc.nPreFacts {
+			break
+		}
+		if strings.HasPrefix(f.Tag, "pre:") {
+			continue // assumed (skolemised) form of a requires clause: never part of the evaluation background
+		}
+		bg.WriteString(f.Text + "\n")
+	}
+	// candidates: models of the failing queries with the quantified hypotheses dropped and short sequences
+	seen := map[string]bool{}
+	tried := 0
+	// shape hints, tried in turn for every failing query: all slices non-empty first (the quantifier-free weakening has lost
+	// what the axioms say about sequences, so the solver would otherwise mostly pick nil), then no hint
+	var bound, nonEmpty strings.Builder
+	for _, p := range params {
+		if _, isSlice := p.T.Underlying().(*types.Slice); isSlice {
+			l := fmt.Sprintf("(len_%s %s)", fc.P.SortOf(p.T), p.term)
+			if cexNilOnly(p.T, fn.Pkg.Pkg) {
+				fmt.Fprintf(&bound, "(assert (= %s 0))\n", l)
+			} else {
+				fmt.Fprintf(&nonEmpty, "(assert (>= %s 1))\n", l)
+			}
+		}
+	}
+	for _, l := range leaves {
+		if strings.HasPrefix(l, "(len_") {
+			fmt.Fprintf(&bound, "(assert (and (<= 0 %s) (<= %s %d)))\n", l, l, cexMaxSeq)
+		}
+	}
+	hints := []string{""}
+	if nonEmpty.Len() > 0 {
+		hints = []string{nonEmpty.String(), ""}
+	}
+	const maxTried = 8
+	for _, v := range failing {
+		if tried >= maxTried || v.Obl == nil {
+			break
+		}
+		q := stripQuantified(fc.QueryOpt(v.Obl, true, false))
+		for hi, hint := range hints {
+			block := ""
+			for round := 0; round < 3 && tried < maxTried; round++ {
+				file := filepath.Join(work, fmt.Sprintf("cex_%s_%s_%d_%d.smt2", mangle(shortObl(v.Obl.Name())), mangle(v.Obl.Site), hi, round))
+				model := modelValues(q+bound.String()+hint+block, leaves, file)
+				if model == nil {
+					if round == 0 {
+						logf("%s@%s: no model of the quantifier-free weakening", shortObl(v.Obl.Name()), v.Obl.Site)
+					}
+					break
+				}
+				var vals []*cexVal
+				var blk []string
+				bad := false
+				for _, p := range params {
+					pv, err := fc.valueFrom(p.term, p.T, model)
+					if err != nil {
+						logf("%s: %v", p.name, err)
+						bad = true
+						break
+					}
+					vals = append(vals, pv)
+					blk = append(blk, fc.eqTerm(p.term, pv))
+				}
+				if bad {
+					break
+				}
+				block += "(assert (not (and " + strings.Join(blk, " ") + " true)))\n"
+				var key []string
+				for _, pv := range vals {
+					key = append(key, pv.show())
+				}
+				k := strings.Join(key, ",")
+				if seen[k] {
+					continue
+				}
+				seen[k] = true
+				tried++
+				cex := e.replayCandidate(fc, fn, params, vals, resConsts, bg.String(), reqs, ens, work, tried, logf)
+				if cex != nil {
+					cex.FromQuery = v.Obl.Name() + "@" + v.Obl.Site
+					cex.Log = logs
+					return cex
+				}
+			}
+		}
+	}
+	return nil
+}
+
+func mentionsNew(term string, decls []string) bool {
+	for _, d := range decls {
+		f := strings.Fields(strings.TrimPrefix(d, "(declare-fun "))
+		if len(f) > 0 && strings.Contains(term, f[0]) {
+			return true
+		}
+	}
+	return false
+}
+
+// onlyAllowedConsts: every declared nullary constant that occurs in term is a parameter or a result constant.
+func onlyAllowedConsts(term string, fc *FnCtx, allowed map[string]bool) bool {
+	toks := map[string]bool{}
+	for _, t := range strings.FieldsFunc(term, func(r rune) bool { return r == '(' || r == ')' || r == ' ' }) {
+		toks[t] = true
+	}
+	for _, d := range fc.decls {
+		if !strings.HasPrefix(d, "(declare-fun ") {
+			continue
+		}
+		rest := strings.TrimPrefix(d, "(declare-fun ")
+		sp := strings.IndexByte(rest, ' ')
+		if sp < 0 {
+			continue
+		}
+		name := rest[:sp]
+		if !strings.HasPrefix(strings.TrimSpace(rest[sp:]), "()") {
+			continue // a function symbol: uninterpreted, any interpretation is covered by an unsat answer
+		}
+		if toks[name] && !allowed[name] {
+			return false
+		}
+	}
+	return true
+}
+
+func firstLine(s string) string {
+	return strings.TrimSpace(strings.SplitN(strings.TrimSpace(s), "\n", 2)[0])
+}
+
+// replayCandidate runs the real function on vals and evaluates the contract on what it returned.
+func (e *Engine) replayCandidate(fc *FnCtx, fn *ssa.Function, params []cexParam, vals []*cexVal, resConsts []string, bg string, reqs []string, ens []cexClause, work string, n int, logf func(string, ...interface{})) *Cex {
+	var pins strings.Builder
+	inputs := map[string]string{}
+	var shown []string
+	for i, p := range params {
+		fmt.Fprintf(&pins, "(assert (= %s %s))\n", p.term, fc.smtTerm(vals[i]))
+		shown = append(shown, p.name+"="+vals[i].show())
+	}
+	// refuted: pins + assertion is unsatisfiable, first under the whole background, then under its quantifier-free part
+	// (dropping hypotheses keeps an unsat answer sound and spares the solver the triggered axioms)
+	bgQF := stripQuantified(bg)
+	refuted := func(assertion, file string) (bool, string) {
+		out, _ := raceSolvers(bgQF+pins.String()+assertion+"(check-sat)\n", filepath.Join(work, file+"_qf.smt2"), "unsat", 10)
+		if out == "unsat" {
+			return true, out
+		}
+		out, _ = raceSolvers(bg+pins.String()+assertion+"(check-sat)\n", filepath.Join(work, file+".smt2"), "unsat", 10)
+		return out == "unsat", out
+	}
+	// (a) the requires clauses provably hold for the input
+	if len(reqs) > 0 {
+		if ok, out := refuted("(assert (not (and "+strings.Join(reqs, " ")+" true)))\n", fmt.Sprintf("cex_req_%d", n)); !ok {
+			logf("candidate %s: the requires clauses are not provably satisfied (%s)", strings.Join(shown, " "), out)
+			return nil
+		}
+	}
+	src, imports, call := cexTestSource(fn, params, vals)
+	_ = imports
+	observed, panicked, testFile, cmd, err := e.runReplayTest(fn, src, work, n)
+	if err != nil {
+		logf("candidate %s: replay did not run: %v", strings.Join(shown, " "), err)
+		return nil
+	}
+	if panicked != "" {
+		logf("candidate %s: the real function panicked: %s", strings.Join(shown, " "), panicked)
+		return nil
+	}
+	res := fn.Signature.Results()
+	if len(observed) != res.Len() {
+		logf("candidate %s: replay printed %d results", strings.Join(shown, " "), len(observed))
+		return nil
+	}
+	var obs []string
+	for i := 0; i < res.Len(); i++ {
+		rv, err := cexFromJSON(res.At(i).Type(), observed[i])
+		if err != nil {
+			logf("candidate %s: result %d: %v", strings.Join(shown, " "), i, err)
+			return nil
+		}
+		fmt.Fprintf(&pins, "(assert (= %s %s))\n", resConsts[i], fc.smtTerm(rv))
+		obs = append(obs, rv.show())
+	}
+	// (b) the pinned values are consistent with the background facts (an unsat answer here would make (c) meaningless)
+	if cls, _ := raceSolvers(bgQF+pins.String()+"(check-sat)\n", filepath.Join(work, fmt.Sprintf("cex_bgqf_%d.smt2", n)), "unsat", 10); cls == "unsat" {
+		logf("candidate %s: pinned values contradict the background facts", strings.Join(shown, " "))
+		return nil
+	}
+	if cls, _ := raceSolvers(bg+pins.String()+"(check-sat)\n", filepath.Join(work, fmt.Sprintf("cex_bg_%d.smt2", n)), "unsat", 10); cls == "unsat" {
+		logf("candidate %s: pinned values contradict the background facts", strings.Join(shown, " "))
+		return nil
+	}
+	// (c) some ensures clause is provably false on the observed pair (and its negation is not refuted as well)
+	var violated []string
+	for _, c := range ens {
+		if ok, _ := refuted("(assert "+c.term+")\n", fmt.Sprintf("cex_ens_%d_%s", n, mangle(c.label))); ok {
+			if both, _ := refuted("(assert (not "+c.term+"))\n", fmt.Sprintf("cex_nens_%d_%s", n, mangle(c.label))); both {
+				logf("candidate %s: clause %s and its negation are both refuted: inconsistent evaluation context, ignored", strings.Join(shown, " "), c.label)
+				continue
+			}
+			violated = append(violated, c.label)
+		}
+	}
+	if len(violated) == 0 {
+		logf("candidate %s -> %s: every evaluable ensures clause holds on the real code", strings.Join(shown, " "), strings.Join(obs, ", "))
+		return nil
+	}
+	q := cexQualifier(fn.Pkg.Pkg, map[string]string{})
+	goInputs := map[string]string{}
+	for i, p := range params {
+		inputs[p.name] = vals[i].show()
+		goInputs[p.name] = vals[i].goExpr(q)
+	}
+	pkgDir, modDir := cexDirs(fn)
+	return &Cex{Func: fc.key, PkgDir: pkgDir, ModDir: modDir, Inputs: inputs, GoInputs: goInputs, Observed: obs, Violated: violated, TestFile: testFile, TestCmd: cmd + "   # " + call}
+}
+
+func cexQualifier(home *types.Package, imports map[string]string) types.Qualifier {
+	return func(p *types.Package) string {
+		if p == home {
+			return ""
+		}
+		alias := "cexpkg_" + mangle(p.Name())
+		for a, path := range imports {
+			if path == p.Path() {
+				return a
+			}
+		}
+		for {
+			if _, taken := imports[alias]; !taken {
+				break
+			}
+			alias += "x"
+		}
+		imports[alias] = p.Path()
+		return alias
+	}
+}
+
+// cexTestSource: the in-package test that calls fn on vals and dumps what it returns.
+func cexTestSource(fn *ssa.Function, params []cexParam, vals []*cexVal) (src string, imports map[string]string, call string) {
+	imports = map[string]string{}
+	q := cexQualifier(fn.Pkg.Pkg, imports)
+	var b strings.Builder
+	var args []string
+	var body strings.Builder
+	for i, p := range params {
+		ex := vals[i].goExpr(q)
+		fmt.Fprintf(&body, "\ta%d := %s\n", i, ex)
+		args = append(args, fmt.Sprintf("a%d", i))
+		_ = p
+	}
+	res := fn.Signature.Results()
+	var rs []string
+	for i := 0; i < res.Len(); i++ {
+		rs = append(rs, fmt.Sprintf("r%d", i))
+	}
+	callee := fn.Name()
+	callArgs := args
+	if fn.Signature.Recv() != nil {
+		callee = "a0." + fn.Name()
+		callArgs = args[1:]
+	}
+	if fn.Signature.Variadic() && len(callArgs) > 0 {
+		callArgs = append(append([]string{}, callArgs[:len(callArgs)-1]...), callArgs[len(callArgs)-1]+"...")
+	}
+	call = fmt.Sprintf("%s(%s)", callee, strings.Join(callArgs, ", "))
+	fmt.Fprintf(&body, "\t%s := %s\n", strings.Join(rs, ", "), call)
+	for _, r := range rs {
+		fmt.Fprintf(&body, "\tfmt.Printf(\"GOVC-CEX-OUT %%s\\n\", govcCexDump(reflect.ValueOf(%s)))\n", r)
+	}
+	fmt.Fprintf(&b, "package %s\n\nimport (\n\t\"fmt\"\n\t\"reflect\"\n\t\"strconv\"\n\t\"strings\"\n\t\"testing\"\n\t\"math\"\n", fn.Pkg.Pkg.Name())
+	var al []string
+	for a := range imports {
+		al = append(al, a)
+	}
+	sort.Strings(al)
+	for _, a := range al {
+		fmt.Fprintf(&b, "\t%s %q\n", a, imports[a])
+	}
+	b.WriteString(")\n\n")
+	b.WriteString(`// generated by govc: replay of a solver model on the real function
+func TestGovcCex(t *testing.T) {
+	defer func() {
+		if r := recover(); r != nil {
+			fmt.Printf("GOVC-CEX-PANIC %v\n", r)
+		}
+	}()
+`)
+	b.WriteString(body.String())
+	b.WriteString("}\n\n")
+	b.WriteString(`func govcCexDump(v reflect.Value) string {
+	switch v.Kind() {
+	case reflect.Bool:
+		return fmt.Sprintf("{\"b\":%v}", v.Bool())
+	case reflect.Int, reflect.Int8, reflect.Int16, reflect.Int32, reflect.Int64:
+		return fmt.Sprintf("{\"i\":\"%d\"}", v.Int())
+	case reflect.Uint, reflect.Uint8, reflect.Uint16, reflect.Uint32, reflect.Uint64:
+		return fmt.Sprintf("{\"i\":\"%d\"}", v.Uint())
+	case reflect.Float32, reflect.Float64:
+		return fmt.Sprintf("{\"f\":\"%x\"}", math.Float64bits(v.Float()))
+	case reflect.String:
+		return fmt.Sprintf("{\"s\":%s}", strconv.Quote(strconv.Quote(v.String())))
+	case reflect.Slice:
+		if v.IsNil() {
+			return "null"
+		}
+		var es []string
+		for i := 0; i < v.Len(); i++ {
+			es = append(es, govcCexDump(v.Index(i)))
+		}
+		return "[" + strings.Join(es, ",") + "]"
+	case reflect.Struct:
+		var es []string
+		for i := 0; i < v.NumField(); i++ {
+			es = append(es, govcCexDump(v.Field(i)))
+		}
+		return "[" + strings.Join(es, ",") + "]"
+	}
+	return "\"?\""
+}
+
+var _ = math.Float64bits
+`)
+	src = b.String()
+	return src, imports, call
+}
+
+// runReplayTest injects src as an in-package test through a build overlay and runs it on the current tree.
+func (e *Engine) runReplayTest(fn *ssa.Function, src, work string, n int) (observed []interface{}, panicked, testFile, cmdline string, err error) {
+	dir, _ := cexDirs(fn)
+	if dir == "" {
+		return nil, "", "", "", fmt.Errorf("no source position")
+	}
+	testFile = filepath.Join(work, fmt.Sprintf("cex_%d_test.go.txt", n))
+	os.WriteFile(testFile, []byte(src), 0o644)
+	extra := map[string]string{}
+	// selftest: the patched sources are part of the tree under test
+	for f, data := range e.Overlay {
+		pf := filepath.Join(work, fmt.Sprintf("cex_ov_%x.go.txt", hashString(f)))
+		os.WriteFile(pf, data, 0o644)
+		extra[f] = pf
+	}
+	return runCexTest(dir, testFile, filepath.Join(work, fmt.Sprintf("cex_%d_overlay.json", n)), extra)
+}
+
+// cexDirs: the directory of fn's package and of the module that contains it.
+func cexDirs(fn *ssa.Function) (dir, mod string) {
+	pos := fn.Prog.Fset.Position(fn.Pos())
+	if !pos.IsValid() {
+		return "", ""
+	}
+	dir = filepath.Dir(pos.Filename)
+	return dir, moduleOf(dir)
+}
+
+func moduleOf(dir string) string {
+	mod := dir
+	for mod != "/" {
+		if _, err := os.Stat(filepath.Join(mod, "go.mod")); err == nil {
+			break
+		}
+		mod = filepath.Dir(mod)
+	}
+	return mod
+}
+
+// runCexTest maps testFile into the package directory dir through a build overlay and runs it there.
+func runCexTest(dir, testFile, ovFile string, extra map[string]string) (observed []interface{}, panicked, tf, cmdline string, err error) {
+	ov := map[string]string{filepath.Join(dir, "zz_govc_cex_test.go"): testFile}
+	for k, v := range extra {
+		ov[k] = v
+	}
+	writeJSON(ovFile, map[string]interface{}{"Replace": ov})
+	mod := moduleOf(dir)
+	rel, _ := filepath.Rel(mod, dir)
+	args := []string{"test", "-overlay", ovFile, "-vet=off", "-count=1", "-timeout", "60s", "-run", "^TestGovcCex$", "-v", "./" + rel}
+	ctx, cancel := context.WithTimeout(context.Background(), 240*time.Second)
+	defer cancel()
+	cmd := exec.CommandContext(ctx, "go", args...)
+	cmd.Dir = mod
+	cmd.Env = append(os.Environ(), "GOFLAGS=-mod=mod", "GOPROXY=off", "GOSUMDB=off", "GOTOOLCHAIN=local")
+	if gw := goWorkOf(mod); gw != "" {
+		// inside a workspace -mod=mod is rejected
+		cmd.Env = append(os.Environ(), "GOFLAGS=", "GOPROXY=off", "GOSUMDB=off", "GOTOOLCHAIN=local")
+	}
+	out, _ := cmd.CombinedOutput()
+	cmdline = fmt.Sprintf("(cd %s && go %s)", mod, strings.Join(args, " "))
+	sawRun := false
+	for _, l := range strings.Split(string(out), "\n") {
+		l = strings.TrimSpace(l)
+		switch {
+		case strings.HasPrefix(l, "GOVC-CEX-OUT "):
+			var j interface{}
+			if err := json.Unmarshal([]byte(strings.TrimPrefix(l, "GOVC-CEX-OUT ")), &j); err != nil {
+				return nil, "", testFile, cmdline, fmt.Errorf("bad dump line %q", l)
+			}
+			observed = append(observed, j)
+		case strings.HasPrefix(l, "GOVC-CEX-PANIC "):
+			panicked = strings.TrimPrefix(l, "GOVC-CEX-PANIC ")
+		case strings.HasPrefix(l, "=== RUN   TestGovcCex"):
+			sawRun = true
+		}
+	}
+	if !sawRun {
+		o := string(out)
+		if len(o) > 600 {
+			o = o[len(o)-600:]
+		}
+		return nil, "", testFile, cmdline, fmt.Errorf("go test did not run the replay: %s", o)
+	}
+	if os.Getenv("GOVC_REPLAY_VERBOSE") != "" {
+		fmt.Println(string(out))
+	}
+	return observed, panicked, testFile, cmdline, nil
+}
+
+func goWorkOf(dir string) string {
+	cmd := exec.Command("go", "env", "GOWORK")
+	cmd.Dir = dir
+	cmd.Env = append(os.Environ(), "GOTOOLCHAIN=local")
+	out, _ := cmd.Output()
+	s := strings.TrimSpace(string(out))
+	if s == "off" {
+		return ""
+	}
+	return s
+}
+
+// tryCounterexample attaches a confirmed failing input (if the run found one) to the replay record.
+func tryCounterexample(verif, prop string, r *oblResult, rep map[string]interface{}) bool {
+	if r.cex == nil {
+		if len(r.cexLog) > 0 {
+			rep["counterexample_search"] = r.cexLog
+		}
+		return false
+	}
+	// keep the replay test beside the replay record (work/ is wiped on the next run)
+	dst := filepath.Join(verif, "replays", fmt.Sprintf("%s-%s_cex_test.go.txt", prop, mangle(r.Name)))
+	if data, err := os.ReadFile(r.cex.TestFile); err == nil {
+		os.WriteFile(dst, data, 0o644)
+		r.cex.TestFile = dst
+	}
+	r.cex.TestCmd = fmt.Sprintf("%s/bin/govc replay %s", verif, filepath.Join(verif, "replays", fmt.Sprintf("%s-%s.json", prop, mangle(r.Name))))
+	rep["counterexample"] = r.cex
+	rep["how_to_replay"] = "run test_cmd: it maps test_file into package_dir as zz_govc_cex_test.go with `go test -overlay` (nothing is written to the repository), runs the real function on the inputs and compares what it returns with `observed`, the values on which the listed ensures clauses are false"
+	return true
+}
+
+// replayFile prints a replay record and, if it carries a failing input, runs the real function on it again.
 func replayFile(path string) int {
 	data, err := os.ReadFile(path)
 	if err != nil {
@@ -17,5 +1322,26 @@ func replayFile(path string) int {
 		return 2
 	}
 	fmt.Println(string(data))
-	return 0
+	var rep struct {
+		Cex *Cex `json:"counterexample"`
+	}
+	if json.Unmarshal(data, &rep) != nil || rep.Cex == nil {
+		fmt.Println("govc replay: this record carries no failing input (no-failing-input-found): nothing to run")
+		return 0
+	}
+	tmp, _ := os.MkdirTemp("", "govc-replay")
+	defer os.RemoveAll(tmp)
+	os.Setenv("GOVC_REPLAY_VERBOSE", "1")
+	observed, panicked, _, cmdline, err := runCexTest(rep.Cex.PkgDir, rep.Cex.TestFile, filepath.Join(tmp, "overlay.json"), nil)
+	fmt.Println("govc replay:", cmdline)
+	if err != nil {
+		fmt.Println("govc replay: the replay did not run:", err)
+		return 2
+	}
+	if panicked != "" {
+		fmt.Println("govc replay: the function panicked:", panicked)
+		return 1
+	}
+	fmt.Printf("govc replay: the real function returned %v; the record says %v (on which ensures %v is false)\n", observed, rep.Cex.Observed, rep.Cex.Violated)
+	return 1
 }
